@@ -515,6 +515,37 @@ def build(case):
                 cond = lambda x, y: x == 3  # noqa: E731
             if which == "nested":
                 return nested_override(x0, step, n, tp, V)
+            if which == "multi":
+                # two conditional overrides on the same binding: each applies under its own condition, the more recently
+                # activated one wins where both hold, and a declining one leaves the other's answer alone
+                from ptera import probing
+
+                V2 = V + 1000
+
+                def twin_multi():
+                    acc = 0
+                    for i in range(n):
+                        x = x0 + i * step
+                        y = x * 2 + 1
+                        if P(x):
+                            y = V2
+                        elif x == 3:
+                            y = V
+                        acc = acc + y
+                    return acc
+
+                with probing("f1(x=3) > y", env=env, overridable=True) as o1:
+                    o1.override(lambda d: V)
+                    with probing("f1(x~P) > y", env=env, overridable=True) as o2:
+                        o2.override(lambda d: V2)
+                        rv = f1(x0, step, n)
+                exp = twin_multi()
+                if twin:
+                    require(rv != exp or n == 0, "vacuity twin", {"fp": "twin"})
+                    return
+                require(rv == exp, "two conditional overrides on one binding: not each applied exactly under its own condition "
+                        "(most recent wins where both hold)", {"fp": "C12:x:override:multi:rv"})
+                return
 
             # substitution twin, written by hand from the program text
             def twin_f1():
@@ -577,7 +608,7 @@ def cases(tier, seed):
                    "budget_s": 1500 if th else 240})
     cs.append({"id": "x:filter:pred:twin", "params": {"kind": "filter", "sel": "pred", "N": 2},
                "vacuity_twin": True, "budget_s": 120, "stop_on_refute": True})
-    for which in ("ctx", "focus", "eq", "nested"):
+    for which in ("ctx", "focus", "eq", "nested", "multi"):
         cs.append({"id": f"x:override:{which}", "params": {"kind": "override", "sel": which, "N": N},
                    "budget_s": 1500 if th else 240})
     cs.append({"id": "x:override:ctx:twin", "params": {"kind": "override", "sel": "ctx", "N": 2},
